@@ -44,6 +44,11 @@ class CacheFacts:
         self.getitem = prog.method(self.cls, "__getitem__")
         self.delitem = prog.method(self.cls, "__delitem__")
         self.iter = prog.method(self.cls, "__iter__")
+        # the same methods with the cache's private helpers inlined: for the rules that read statements (sa/inline.py)
+        self.setitem_v = prog.method_view(self.cls, "__setitem__")
+        self.getitem_v = prog.method_view(self.cls, "__getitem__")
+        self.delitem_v = prog.method_view(self.cls, "__delitem__")
+        self.iter_v = prog.method_view(self.cls, "__iter__")
         self.cap_field = None
         for n in walk_own(self.setitem.node):
             if isinstance(n, ast.Compare) and len(n.ops) == 1:
@@ -400,6 +405,21 @@ class _Coherence(Client):
                 and isinstance(node.slice, ast.Name) and node.slice.id == self.key:
             # a successful dict lookup of the key proves presence (a miss raises KeyError)
             return ((order, True, dd, dl),)
+        if kind == "call" and isinstance(node, ast.Call) and isinstance(node.func, ast.Attribute) and cf.is_dict(node.func.value, f):
+            m = node.func.attr
+            if m == "pop" and node.args:
+                # dict.pop(k) without a default: returns the entry and removes it (KeyError on a miss); with a default the key
+                # may have been absent
+                k = node.args[0]
+                has_default = len(node.args) > 1 or bool(node.keywords)
+                if isinstance(k, ast.Name) and k.id == self.key:
+                    if has_default and present is not True:
+                        return ((order, False, _sat(dd - 1), dl), (order, False, dd, dl))
+                    return ((order, False, _sat(dd - 1), dl),)
+                self.evicted_key_exprs.append(k)
+                return ((order, present, _sat(dd - 1), dl),)
+            if m in ("popitem", "clear", "update", "setdefault"):
+                self.problems.append(f"dict.{m}() on the cache's dict: effect on the entry count not modelled")
         return (state,)
 
 
@@ -558,7 +578,13 @@ def rule_lookup_source(prog, rep: Report, cf: CacheFacts, rule: str):
         if not roots and not direct:
             bad.append((r.lineno, f"`{src(r)}` does not return the payload of a node"))
             continue
-        for n in roots:
+        seen_names = set()
+
+        def origin(n: ast.Name, depth: int = 0):
+            nonlocal seen_ok
+            if (id(n), n.id) in seen_names or depth > 8:
+                return
+            seen_names.add((id(n), n.id))
             for d in flow.defs_of(n):
                 v = d.value
                 if isinstance(v, ast.Subscript) and cf.is_dict(v.value, f) and src(v.slice) == k:
@@ -579,10 +605,22 @@ def rule_lookup_source(prog, rep: Report, cf: CacheFacts, rule: str):
                         and dotted(v)[1] not in (cf.dict_field, cf.list_field, cf.cap_field):
                     # a remembered node: whether it is still the node stored under k is the derived-state rule's question
                     memo.append(dotted(v)[1])
+                elif isinstance(v, ast.expr):
+                    # a value computed from other locals (payload of the node, a component of it): follow them
+                    inner = [x for x in ast.walk(v) if isinstance(x, ast.Name) and isinstance(x.ctx, ast.Load) and x.id not in (f.self_name, k)]
+                    if inner or any(isinstance(x, ast.Subscript) and cf.is_dict(x.value, f) and src(x.slice) == k for x in ast.walk(v)):
+                        if not inner:
+                            seen_ok += 1
+                        for x in inner:
+                            origin(x, depth + 1)
+                    else:
+                        bad.append((getattr(d.node, "lineno", r.lineno),
+                                    f"`{n.id}` can reach `{src(r)}` from `{src(v)}`, not from self.{cf.dict_field}[{k}]"))
                 else:
                     bad.append((getattr(d.node, "lineno", r.lineno),
-                                f"`{n.id}` can reach `{src(r)}` from `{src(v) if isinstance(v, ast.AST) else d.kind}`, not from "
-                                f"self.{cf.dict_field}[{k}]"))
+                                f"`{n.id}` can reach `{src(r)}` from a {d.kind} binding, not from self.{cf.dict_field}[{k}]"))
+        for n in roots:
+            origin(n)
     if unknown and not bad:
         rep.unrec(rule, f, "lookup-source", unknown[0])
         return
